@@ -337,6 +337,17 @@ thread_local! {
     /// accumulated fingerprint of every simulation finished on this (harness) thread
     pub static RUN_FP: Cell<u64> = const { Cell::new(0) };
     pub static RUN_FP_DEEP: Cell<bool> = const { Cell::new(false) };
+    /// when armed, every finished simulation appends its schedule-and-fault trace here
+    pub static TRACE_DUMP: RefCell<Option<Vec<String>>> = const { RefCell::new(None) };
+}
+
+/// Arm / collect the human-readable schedule-and-fault trace of the simulations run on this
+/// thread (used when a replay file is written).
+pub fn arm_trace_dump() {
+    TRACE_DUMP.with(|t| *t.borrow_mut() = Some(Vec::new()));
+}
+pub fn take_trace_dump() -> Vec<String> {
+    TRACE_DUMP.with(|t| t.borrow_mut().take().unwrap_or_default())
 }
 
 /// Reset / read the per-thread accumulated run fingerprint (determinism self-test).
@@ -1537,6 +1548,36 @@ impl Sim {
             }
         }
         st.hooks.clear();
+        TRACE_DUMP.with(|t| {
+            if let Some(v) = t.borrow_mut().as_mut() {
+                if v.len() < 4000 {
+                    v.push(format!("--- simulation: policy {:?}, seed {}, faults {:?}", st.cfg.policy, st.cfg.seed, st.cfg.faults));
+                    for r in out.trace.iter().take(1500) {
+                        let role = out.procs.get(r.pid as usize).map_or("?", |p| p.role.as_str());
+                        let mut line = format!("{:>5} {:<14} {:?} {}", r.seq, role, r.kind, r.path.replace('\n', "\\n"));
+                        if !r.path2.is_empty() {
+                            line.push_str(&format!(" -> {}", r.path2.replace('\n', "\\n")));
+                        }
+                        if r.bytes > 0 {
+                            line.push_str(&format!(" [{}]", r.bytes));
+                        }
+                        if !r.ok {
+                            line.push_str(&format!(" = errno {}", r.errno));
+                        }
+                        if r.injected {
+                            line.push_str(" (INJECTED FAULT)");
+                        }
+                        if r.kind == OpKind::KillMark {
+                            line.push_str(" (PROCESS KILLED HERE)");
+                        }
+                        v.push(line);
+                    }
+                    if out.trace.len() > 1500 {
+                        v.push(format!("... {} more steps", out.trace.len() - 1500));
+                    }
+                }
+            }
+        });
         mix_run_fp(out.trace_fp);
         mix_run_fp(out.stats.steps);
         if RUN_FP_DEEP.with(|d| d.get()) {
